@@ -536,6 +536,9 @@ func (e *LinEval) phi(p *ssa.Phi) Lin {
 	if !isIntType(p.Type()) {
 		return LinBad("non-int phi")
 	}
+	if r := ResultTemp(p); r != nil {
+		return e.Of(r)
+	}
 	// induction: edges are either p + c (through one BinOp) or loop-invariant inits
 	var inits []Lin
 	var step *int64
